@@ -8,9 +8,12 @@
    tree mirrors them, with parent links), nident = get_identifier().
    A diagnostic is (rule class, severity, range, key); the three v2 checkers share one append-only
    collector and nothing else, so the report is modelled as the concatenation of four separate walks
-   and compared as a multiset (HashMap iteration order and interleaving are not observable).
-   The purge map's key function is a parameter (keyf): the code upper-cases the name (since ef936ba;
-   before: the exact spelling, key_exact); the entry keeps the declared spelling for the message.
+   and compared as a multiset (the interleaving is not observable).
+   The purge and inherited checkers settle the verdict on a method when the walker visits the method
+   node, by a scan of that node's own subtree (/repo fix of D15-D19); nothing is pending at notify_end.
+   The checkers as they were before that repair (streaming state, flushed at the next method node or
+   at the end of the walk; purge map with key function keyf) are kept at the end of the file under
+   the names *_old / unpurged_lint_k for the regression theorems.
    No property proofs here. *)
 From GoldV Require Import Base Tokens Lexer AstKinds Tree.
 
@@ -20,6 +23,7 @@ Definition s_ALISTOFINSTANCES : str := [65;76;73;83;84;79;70;73;78;83;84;65;78;6
 Definition s_TEXT : str := [84;69;88;84].
 Definition s_PASS : str := [80;65;83;83].
 Definition s_PURGE : str := [80;85;82;71;69].
+Definition s_SELF : str := [83;69;76;70].
 Definition s_INIT : str := [73;78;73;84].
 Definition s_TERMINATE : str := [84;69;82;77;73;78;65;84;69].
 Definition s_NOTIFYINIT : str := [78;79;84;73;70;89;73;78;73;84].
@@ -140,17 +144,6 @@ Section Walk2.
 End Walk2.
 
 (* ---- UnpurgedVarByteArrayChecker ---- *)
-Definition pinfo := ((str * range) * bool)%type.        (* Info{id, range, is_purged} *)
-Definition pmap := list (str * pinfo).                 (* HashMap<String, Info> *)
-
-Definition amark (k : str) (m : pmap) : pmap :=
-  map (fun e : str * pinfo => if str_eqb k (fst e) then (fst e, (fst (snd e), true)) else e) m.
-
-Definition unpurged_diags (m : pmap) : list diag :=
-  flat_map (fun e : str * pinfo =>
-              if snd (snd e) then []
-              else [mkDiag PURGE WARNING (snd (fst (snd e))) (fst (fst (snd e)))]) m.   (* message prints info.id *)
-
 Definition is_tvba_local (n : node) : bool :=
   is_kind KAstLocalVariableDeclaration n &&
   match child 0 n with                       (* node.type_node *)
@@ -161,36 +154,45 @@ Definition is_tvba_local (n : node) : bool :=
 Definition is_purge_call (n : node) : bool :=
   is_kind KAstMethodCall n && str_eqb (upper (nident n)) s_PURGE.
 
-Section Unpurged.
-  Context (keyf : str -> str).     (* today: to_uppercase *)
+(* an AstTerminal whose token is an Identifier (not a literal, call, index ...) *)
+Definition is_ident_terminal (a : node) : bool :=
+  is_kind KAstTerminal a &&
+  match attr_tok K_token a with Some t => tt_eqb (tty t) TIdentifier | None => false end.
 
-  Definition unp_state := (pmap * list diag)%type.
+(* byte_array_seen : Vec<Info{id, range}> in declaration order; purged_names : HashSet<String> *)
+Definition pscan := (list (str * range) * list str)%type.
+Definition pscan0 : pscan := ([], []).
 
-  Definition unp_method_decl (n : node) (st : unp_state) : unp_state :=
-    let st1 : unp_state := if is_kind KAstProcedure n then (([] : pmap), snd st ++ unpurged_diags (fst st)) else st in
-    if is_kind KAstFunction n then (([] : pmap), snd st1 ++ unpurged_diags (fst st1)) else st1.
+Definition unp_local (n : node) (s : pscan) : pscan :=
+  if is_tvba_local n then (fst s ++ [(nident n, ident_range n)], snd s) else s.
 
-  Definition unp_local (n : node) (st : unp_state) : unp_state :=
-    if is_tvba_local n then (ainsert (keyf (nident n)) ((nident n, ident_range n), false) (fst st), snd st) else st.
+Definition unp_call (n : node) (s : pscan) : pscan :=
+  if is_purge_call n then
+    match child 0 n with                     (* children.first(): the first PARAMETER *)
+    | Some a => if is_ident_terminal a then (fst s, upper (nident a) :: snd s) else s
+    | None => s
+    end
+  else s.
 
-  Definition unp_call (n : node) (st : unp_state) : unp_state :=
-    if is_purge_call n then
-      match child 0 n with                   (* children.first(): the first PARAMETER *)
-      | Some a => (amark (keyf (nident a)) (fst st), snd st)    (* get_mut: no effect if not a key *)
-      | None => st
-      end
-    else st.
+(* scan_method: every node BELOW the method node, pre-order *)
+Fixpoint unp_scan (n : node) (s : pscan) : pscan :=
+  match n with
+  | Node _ _ _ _ _ ch =>
+    (fix go (l : list node) (acc : pscan) : pscan :=
+       match l with [] => acc | c :: l' => go l' (unp_scan c (unp_call c (unp_local c acc))) end) ch s
+  end.
 
-  Definition unp_visit (_ : wctx) (_ : list node) (n : node) (st : unp_state) : unp_state :=
-    unp_call n (unp_local n (unp_method_decl n st)).
+Definition is_purged_name (names : list str) (id : str) : bool := existsb (str_eqb (upper id)) names.
 
-  Definition unp_end (st : unp_state) : unp_state := (fst st, snd st ++ unpurged_diags (fst st)).
+(* generate_diags_for_unpurged: one diagnostic per registered declaration, the message prints info.id *)
+Definition unpurged_diags (s : pscan) : list diag :=
+  flat_map (fun e : str * range =>
+              if is_purged_name (snd s) (fst e) then [] else [mkDiag PURGE WARNING (snd e) (fst e)]) (fst s).
 
-  Definition unpurged_lint_k (ast : node) : list diag := snd (run2 unp_visit unp_end ast ([], [])).
-End Unpurged.
+Definition unp_visit (_ : wctx) (_ : list node) (n : node) (out : list diag) : list diag :=
+  if is_method n then out ++ unpurged_diags (unp_scan n pscan0) else out.
 
-Definition key_exact (s : str) : str := s.      (* the key before ef936ba *)
-Definition unpurged_lint : node -> list diag := unpurged_lint_k upper.
+Definition unpurged_lint (ast : node) : list diag := run2 unp_visit (fun s => s) ast [].
 
 (* ---- NamingConventionChecker ---- *)
 Definition first_is (c : N) (id : str) : bool := match id with x :: _ => x =? c | [] => false end.
@@ -247,8 +249,6 @@ Definition name_visit (_ : wctx) (anc : list node) (n : node) (out : list diag) 
 Definition naming_lint (ast : node) : list diag := run2 name_visit (fun s => s) ast [].
 
 (* ---- InheritedChecker ---- *)
-Record inh_state := mkInh { ih_called : bool; ih_cur : option node; ih_out : list diag }.
-
 Definition in_check_set (u : str) : bool :=
   str_eqb u s_INIT || str_eqb u s_TERMINATE || str_eqb u s_NOTIFYINIT || str_eqb u s_NOTIFYTERMINATE.
 
@@ -256,18 +256,6 @@ Definition in_check_set (u : str) : bool :=
 Definition inh_sel_range (m : node) : range :=
   let r1 := if is_kind KAstProcedure m then name_range m else nrange m in
   if is_kind KAstFunction m then name_range m else r1.
-
-Definition inh_check (st : inh_state) : inh_state :=
-  match ih_cur st with
-  | Some m =>
-    if in_check_set (upper (nident m)) && negb (ih_called st)
-    then mkInh (ih_called st) (ih_cur st) (ih_out st ++ [mkDiag INH WARNING (inh_sel_range m) (nident m)])
-    else st
-  | None => st
-  end.
-
-Definition inh_method_node (n : node) (st : inh_state) : inh_state :=
-  let st1 := inh_check st in mkInh false (Some n) (ih_out st1).
 
 (* any AstTerminal whose token is not a string literal (since 44578d5) and whose value upper-cases to PASS *)
 Definition is_pass_terminal (n : node) : bool :=
@@ -281,40 +269,59 @@ Definition is_inherited_op (n : node) : bool :=
   is_kind KAstUnaryOp n &&
   match attr_tok K_op n with Some t => tt_eqb (tty t) TInherited | None => false end.
 
-(* handle_inherited_node: operand is an AstBinaryOp whose RIGHT node's identifier equals the
-   context's current method's identifier, both upper-cased *)
-Definition inh_names (cm n : node) : bool :=
-  match child 0 n with
-  | Some e =>
-    is_kind KAstBinaryOp e &&
-    match child 1 e with Some r => str_eqb (upper_rs (nident r)) (upper_rs (nident cm)) | None => false end
+(* the receiver: an AstTerminal, Identifier token, spelled self *)
+Definition is_self_terminal (l : node) : bool :=
+  is_kind KAstTerminal l &&
+  match attr_tok K_token l with
+  | Some t => tt_eqb (tty t) TIdentifier && str_eqb (upper_rs (tval t)) s_SELF
   | None => false
   end.
 
-Definition inh_visit (c : wctx) (_ : list node) (n : node) (st : inh_state) : inh_state :=
-  let st1 := if is_kind KAstProcedure n then inh_method_node n st else st in
-  let st2 := if is_kind KAstFunction n then inh_method_node n st1 else st1 in
-  let st3 := if is_pass_terminal n then mkInh true (ih_cur st2) (ih_out st2) else st2 in
-  if is_inherited_op n then
-    match cx_method c with
-    | Some cm => if inh_names cm n then mkInh true (ih_cur st3) (ih_out st3) else st3
-    | None => st3
+(* is_inherited_self_call: `inherited` applied to an AstBinaryOp whose operator is the dot, whose left
+   node is `self` and whose right node is an AstTerminal or an AstMethodCall named like the method
+   (u = the method's identifier upper-cased) *)
+Definition inh_self_call (u : str) (x : node) : bool :=
+  is_inherited_op x &&
+  match child 0 x with
+  | Some e =>
+    is_kind KAstBinaryOp e &&
+    match attr_tok K_op e with Some t => tt_eqb (tty t) TDot | None => false end &&
+    match child 0 e, child 1 e with
+    | Some l, Some r =>
+      is_self_terminal l && (is_kind KAstTerminal r || is_kind KAstMethodCall r) &&
+      str_eqb (upper_rs (nident r)) u
+    | _, _ => false
     end
-  else st3.
+  | None => false
+  end.
 
-Definition inherited_lint (ast : node) : list diag :=
-  ih_out (run2 inh_visit inh_check ast (mkInh false None [])).
+(* calls_inherited: some node BELOW the method node is `pass` or `inherited self.<method>` *)
+Fixpoint inh_scan (u : str) (n : node) : bool :=
+  match n with
+  | Node _ _ _ _ _ ch =>
+    (fix go (l : list node) : bool :=
+       match l with
+       | [] => false
+       | c :: l' => (is_pass_terminal c || inh_self_call u c || inh_scan u c) || go l'
+       end) ch
+  end.
+
+Definition inh_visit (_ : wctx) (_ : list node) (n : node) (out : list diag) : list diag :=
+  if is_method n then
+    let u := upper_rs (nident n) in
+    if in_check_set u && negb (inh_scan u n)
+    then out ++ [mkDiag INH WARNING (inh_sel_range n) (nident n)] else out
+  else out.
+
+Definition inherited_lint (ast : node) : list diag := run2 inh_visit (fun s => s) ast [].
 
 (* ------------------------------------------------------------------------------------------ *)
 (* the report (rule classes of C16 only; parser and unused-variable diagnostics belong to other
    properties): v1 list, then the v2 collector in registration order unpurged, naming, inherited *)
-Definition lints_v2_k (keyf : str -> str) (ast : node) : list diag :=
-  unpurged_lint_k keyf ast ++ naming_lint ast ++ inherited_lint ast.
+Definition lints_v2 (ast : node) : list diag :=
+  unpurged_lint ast ++ naming_lint ast ++ inherited_lint ast.
 
-Definition lints_k (keyf : str -> str) (ast : node) : list diag :=
-  ret_type_lint ast ++ lints_v2_k keyf ast.
-
-Definition lints : node -> list diag := lints_k upper.
+Definition lints (ast : node) : list diag := ret_type_lint ast ++ lints_v2 ast.
 
 (* generate_diagnostics on a document: the v1 list is computed once per document version and cached
    on the Document (get_analyzer_diagnostics / set_analyzer_diagnostics); the v2 list is recomputed
@@ -324,9 +331,101 @@ Definition fresh_doc (ast : node) : doc := mkDoc ast None.
 
 Definition request (d : doc) : list diag * doc :=
   let v1 := match d_cache d with Some l => l | None => ret_type_lint (d_ast d) end in
-  (v1 ++ lints_v2_k upper (d_ast d), mkDoc (d_ast d) (Some v1)).
+  (v1 ++ lints_v2 (d_ast d), mkDoc (d_ast d) (Some v1)).
 
 (* ---- canonical observation of the engine: sort key ---- *)
 Definition dclass_idx (c : dclass) : N :=
   match c with RET => 0 | INH => 1 | PURGE => 2 | NPROC => 3 | NFUNC => 4 | NFIELD => 5
              | NPARAM => 6 | NLOCAL => 7 | NTYPE => 8 | NCONST => 9 end.
+
+(* ========================================================================================== *)
+(* The two stateful checkers as they were BEFORE the repair of D15-D19 (regression theorems    *)
+(* C16_old_*_refuted are about these steps; nothing else uses them).                           *)
+(* ========================================================================================== *)
+
+(* ---- UnpurgedVarByteArrayChecker, old: a map filled while walking, flushed at the next method node
+        and at notify_end; keyf = the map's key function (upper since ef936ba, before: the spelling) ---- *)
+Definition pinfo := ((str * range) * bool)%type.        (* Info{id, range, is_purged} *)
+Definition pmap := list (str * pinfo).                 (* HashMap<String, Info> *)
+
+Definition amark (k : str) (m : pmap) : pmap :=
+  map (fun e : str * pinfo => if str_eqb k (fst e) then (fst e, (fst (snd e), true)) else e) m.
+
+Definition unpurged_diags_old (m : pmap) : list diag :=
+  flat_map (fun e : str * pinfo =>
+              if snd (snd e) then []
+              else [mkDiag PURGE WARNING (snd (fst (snd e))) (fst (fst (snd e)))]) m.
+
+Section UnpurgedOld.
+  Context (keyf : str -> str).
+
+  Definition unp_state := (pmap * list diag)%type.
+
+  Definition unp_method_decl_old (n : node) (st : unp_state) : unp_state :=
+    let st1 : unp_state := if is_kind KAstProcedure n then (([] : pmap), snd st ++ unpurged_diags_old (fst st)) else st in
+    if is_kind KAstFunction n then (([] : pmap), snd st1 ++ unpurged_diags_old (fst st1)) else st1.
+
+  Definition unp_local_old (n : node) (st : unp_state) : unp_state :=
+    if is_tvba_local n then (ainsert (keyf (nident n)) ((nident n, ident_range n), false) (fst st), snd st) else st.
+
+  Definition unp_call_old (n : node) (st : unp_state) : unp_state :=
+    if is_purge_call n then
+      match child 0 n with
+      | Some a => (amark (keyf (nident a)) (fst st), snd st)    (* get_mut: no effect if not a key *)
+      | None => st
+      end
+    else st.
+
+  Definition unp_visit_old (_ : wctx) (_ : list node) (n : node) (st : unp_state) : unp_state :=
+    unp_call_old n (unp_local_old n (unp_method_decl_old n st)).
+
+  Definition unp_end_old (st : unp_state) : unp_state := (fst st, snd st ++ unpurged_diags_old (fst st)).
+
+  Definition unpurged_lint_k (ast : node) : list diag := snd (run2 unp_visit_old unp_end_old ast ([], [])).
+End UnpurgedOld.
+
+Definition key_exact (s : str) : str := s.      (* the key before ef936ba *)
+
+(* ---- InheritedChecker, old: a flag set while walking, reset at method nodes only ---- *)
+Record inh_state := mkInh { ih_called : bool; ih_cur : option node; ih_out : list diag }.
+
+Definition inh_check_old (st : inh_state) : inh_state :=
+  match ih_cur st with
+  | Some m =>
+    if in_check_set (upper (nident m)) && negb (ih_called st)
+    then mkInh (ih_called st) (ih_cur st) (ih_out st ++ [mkDiag INH WARNING (inh_sel_range m) (nident m)])
+    else st
+  | None => st
+  end.
+
+Definition inh_method_node_old (n : node) (st : inh_state) : inh_state :=
+  let st1 := inh_check_old st in mkInh false (Some n) (ih_out st1).
+
+(* the operand is an AstBinaryOp (ANY operator) whose RIGHT node's identifier equals the context's
+   current method's identifier, both upper-cased; the left node is not looked at *)
+Definition inh_names_old (cm n : node) : bool :=
+  match child 0 n with
+  | Some e =>
+    is_kind KAstBinaryOp e &&
+    match child 1 e with Some r => str_eqb (upper_rs (nident r)) (upper_rs (nident cm)) | None => false end
+  | None => false
+  end.
+
+Definition inh_visit_old (c : wctx) (_ : list node) (n : node) (st : inh_state) : inh_state :=
+  let st1 := if is_kind KAstProcedure n then inh_method_node_old n st else st in
+  let st2 := if is_kind KAstFunction n then inh_method_node_old n st1 else st1 in
+  let st3 := if is_pass_terminal n then mkInh true (ih_cur st2) (ih_out st2) else st2 in
+  if is_inherited_op n then
+    match cx_method c with
+    | Some cm => if inh_names_old cm n then mkInh true (ih_cur st3) (ih_out st3) else st3
+    | None => st3
+    end
+  else st3.
+
+Definition inherited_lint_old (ast : node) : list diag :=
+  ih_out (run2 inh_visit_old inh_check_old ast (mkInh false None [])).
+
+Definition lints_old_k (keyf : str -> str) (ast : node) : list diag :=
+  ret_type_lint ast ++ unpurged_lint_k keyf ast ++ naming_lint ast ++ inherited_lint_old ast.
+
+Definition lints_old : node -> list diag := lints_old_k upper.
